@@ -169,7 +169,29 @@ pub mod p_stream__Push__push;
 pub mod p_stream__Push__push_to_vec;
 pub mod p_stream__Pull__pull;
 pub mod p_stream__Pull__pull_to_vec;
+pub mod p_HeapBytes__LockedRW__view_serde_json;
+pub mod p_HeapBytes__LockedRW__view_bincode;
+pub mod p_HeapBytes__LockedRW__view_to_vec;
+pub mod p_HeapBytes__LockedRW__view_iter;
+pub mod p_HeapBytes__LockedRO__view_serde_json;
+pub mod p_HeapBytes__LockedRO__view_bincode;
+pub mod p_HeapBytes__LockedRO__view_to_vec;
+pub mod p_HeapBytes__LockedRO__view_iter;
+pub mod p_HeapBytes__UnlockedRW__view_to_vec;
+pub mod p_HeapBytes__UnlockedRW__view_iter;
+pub mod p_HeapBytes__UnlockedRO__view_to_vec;
+pub mod p_HeapBytes__UnlockedRO__view_iter;
 pub mod p_HeapBytes__UnlockedNA__t_mlock;
+pub mod p_HeapByteArray32__LockedRW__view_serde_json;
+pub mod p_HeapByteArray32__LockedRW__view_bincode;
+pub mod p_HeapByteArray32__LockedRW__view_to_vec;
+pub mod p_HeapByteArray32__LockedRW__view_iter;
+pub mod p_HeapByteArray32__LockedRO__view_to_vec;
+pub mod p_HeapByteArray32__LockedRO__view_iter;
+pub mod p_HeapByteArray32__UnlockedRW__view_to_vec;
+pub mod p_HeapByteArray32__UnlockedRW__view_iter;
+pub mod p_HeapByteArray32__UnlockedRO__view_to_vec;
+pub mod p_HeapByteArray32__UnlockedRO__view_iter;
 pub mod p_HeapByteArray32__UnlockedNA__t_mlock;
 
 const PROGS: &[(&str, fn())] = &[
@@ -343,7 +365,29 @@ const PROGS: &[(&str, fn())] = &[
     ("stream__Push__push_to_vec", p_stream__Push__push_to_vec::run as fn()),
     ("stream__Pull__pull", p_stream__Pull__pull::run as fn()),
     ("stream__Pull__pull_to_vec", p_stream__Pull__pull_to_vec::run as fn()),
+    ("HeapBytes__LockedRW__view_serde_json", p_HeapBytes__LockedRW__view_serde_json::run as fn()),
+    ("HeapBytes__LockedRW__view_bincode", p_HeapBytes__LockedRW__view_bincode::run as fn()),
+    ("HeapBytes__LockedRW__view_to_vec", p_HeapBytes__LockedRW__view_to_vec::run as fn()),
+    ("HeapBytes__LockedRW__view_iter", p_HeapBytes__LockedRW__view_iter::run as fn()),
+    ("HeapBytes__LockedRO__view_serde_json", p_HeapBytes__LockedRO__view_serde_json::run as fn()),
+    ("HeapBytes__LockedRO__view_bincode", p_HeapBytes__LockedRO__view_bincode::run as fn()),
+    ("HeapBytes__LockedRO__view_to_vec", p_HeapBytes__LockedRO__view_to_vec::run as fn()),
+    ("HeapBytes__LockedRO__view_iter", p_HeapBytes__LockedRO__view_iter::run as fn()),
+    ("HeapBytes__UnlockedRW__view_to_vec", p_HeapBytes__UnlockedRW__view_to_vec::run as fn()),
+    ("HeapBytes__UnlockedRW__view_iter", p_HeapBytes__UnlockedRW__view_iter::run as fn()),
+    ("HeapBytes__UnlockedRO__view_to_vec", p_HeapBytes__UnlockedRO__view_to_vec::run as fn()),
+    ("HeapBytes__UnlockedRO__view_iter", p_HeapBytes__UnlockedRO__view_iter::run as fn()),
     ("HeapBytes__UnlockedNA__t_mlock", p_HeapBytes__UnlockedNA__t_mlock::run as fn()),
+    ("HeapByteArray32__LockedRW__view_serde_json", p_HeapByteArray32__LockedRW__view_serde_json::run as fn()),
+    ("HeapByteArray32__LockedRW__view_bincode", p_HeapByteArray32__LockedRW__view_bincode::run as fn()),
+    ("HeapByteArray32__LockedRW__view_to_vec", p_HeapByteArray32__LockedRW__view_to_vec::run as fn()),
+    ("HeapByteArray32__LockedRW__view_iter", p_HeapByteArray32__LockedRW__view_iter::run as fn()),
+    ("HeapByteArray32__LockedRO__view_to_vec", p_HeapByteArray32__LockedRO__view_to_vec::run as fn()),
+    ("HeapByteArray32__LockedRO__view_iter", p_HeapByteArray32__LockedRO__view_iter::run as fn()),
+    ("HeapByteArray32__UnlockedRW__view_to_vec", p_HeapByteArray32__UnlockedRW__view_to_vec::run as fn()),
+    ("HeapByteArray32__UnlockedRW__view_iter", p_HeapByteArray32__UnlockedRW__view_iter::run as fn()),
+    ("HeapByteArray32__UnlockedRO__view_to_vec", p_HeapByteArray32__UnlockedRO__view_to_vec::run as fn()),
+    ("HeapByteArray32__UnlockedRO__view_iter", p_HeapByteArray32__UnlockedRO__view_iter::run as fn()),
     ("HeapByteArray32__UnlockedNA__t_mlock", p_HeapByteArray32__UnlockedNA__t_mlock::run as fn()),
 ];
 
